@@ -21,7 +21,8 @@ RULE = ("real projects of 1-4 jobs drawn from 13 state point shapes (nested, flo
         "each job with a document and data files; damage to up to 3 jobs: truncation of the state point file at a byte "
         "offset (every offset in thorough, every 3rd in quick), single-byte substitution at an offset (every / every "
         "5th) x class {digit, letter, quote, brace, space, 0x00, 0x80}, deletion, replacement by other JSON (another "
-        "job's file, 1, [], {}, null, ints as floats, reordered keys, leading space), renaming of the directory to "
+        "job's file, 1, [], {}, null, ints as floats, reordered keys, leading space), also ACROSS jobs (one job receives "
+        "the state point of another job that is itself deleted/truncated/replaced/renamed), renaming of the directory to "
         "another id (random, id of an absent shape, md5('null')); with no / full / partial persistent cache "
         "(update_cache before the damage).  Observed: check() ids, open_job(id=i).statepoint() in fresh sessions, "
         "repair() outcome, byte snapshot of the whole workspace before/after, check() after, open by id through the "
@@ -82,6 +83,10 @@ def _single_sweep(stride_t, stride_s):
             dmg += [["rename", r, s] for r in RENAMES]
             for d in dmg:
                 out.append({"jobs": [s, other], "cache": cache, "damage": [[0] + d]})
+            # damage ACROSS jobs: job 1 gets job 0's state point while job 0's own file is deleted / truncated /
+            # replaced / its directory renamed away (seeded C09-9: the rename target exists without a state point file)
+            for first in (["delete"], ["trunc", 1], ["replace", "job:1"], ["replace", "[]"], ["rename", "rand", s]):
+                out.append({"jobs": [s, other], "cache": cache, "damage": [[0] + first, [1, "replace", "job:0"]]})
     return out
 
 
@@ -105,7 +110,13 @@ def _rand_multi(rng):
     cache = rng.choice(["none", "full", "full", "partial:%d" % rng.randint(0, k)])
     nd = rng.randint(1, min(3, k))
     victims = rng.sample(range(k), nd)
-    return {"jobs": jobs, "cache": cache, "damage": [[v] + _rand_damage(rng, jobs[v]) for v in victims]}
+    damage = [[v] + _rand_damage(rng, jobs[v]) for v in victims]
+    if k >= 2 and rng.random() < 0.3:
+        # one job's replacement value is another (possibly damaged) job's true state point
+        a, b = rng.sample(range(k), 2)
+        damage.append([b, "replace", "job:%d" % a])
+        damage = damage[-3:]
+    return {"jobs": jobs, "cache": cache, "damage": damage}
 
 
 DIRECTED = [
@@ -209,7 +220,9 @@ def apply_damage(root, ids, jobs, dmg, dirs):
     elif kind == "replace":
         what = dmg[2]
         sp = SHAPES[jobs[v]]
-        if what == "other":
+        if what.startswith("job:"):
+            new = json.dumps(SHAPES[jobs[int(what[4:]) % len(jobs)]]).encode()
+        elif what == "other":
             o = (v + 1) % len(jobs)
             new = json.dumps(SHAPES[jobs[o]]).encode() if len(jobs) > 1 else b'{"other": 0}'
         elif what == "float":
